@@ -310,7 +310,8 @@ def maxlen_states(cfg, var, base=INF):
 
 
 def exact_unpacks(func, var):
-    """Whole-buffer `unpack(<constant format>, var)`: needs len(var) == calcsize(format)."""
+    """Whole-buffer `unpack(<format>, var)`: needs len(var) == calcsize(format).  A format that is not a constant is returned
+    as ('expr', <format expression>) and decided by case analysis in check()."""
     out = []
     for n in walk_no_nested(func.node):
         if isinstance(n, ast.Call) and norm(n.func) in ('unpack', 'struct.unpack') and len(n.args) == 2 and _is(n.args[1], var):
@@ -320,7 +321,54 @@ def exact_unpacks(func, var):
                     out.append((n, struct.calcsize(fmt), norm(n)))
                 except struct.error:
                     pass
+            else:
+                out.append((n, ('expr', n.args[0]), norm(n)))
     return out
+
+
+def _format_cases(func, cfg, node, fmt_expr, var):
+    """unpack(fmt, var) with a computed format: find the guard `(x, len(var)) in ((a, n), (b, m), ...)` that every path to the
+    call passes, evaluate the format for each admitted value of x and compare its size with the admitted length.
+    Returns (ok, explanation)."""
+    # the format expression: a name bound exactly once in the function
+    expr = fmt_expr
+    if isinstance(expr, ast.Name):
+        defs = [s for s in walk_no_nested(func.node) if isinstance(s, ast.Assign) and len(s.targets) == 1 and norm(s.targets[0]) == expr.id]
+        if len(defs) != 1:
+            return False, 'format %s is not bound exactly once' % expr.id
+        expr = defs[0].value
+    target = cfg_node_for(cfg, node)
+    for e, tn in cfg.test_nodes.items():
+        if not (isinstance(e, ast.Compare) and len(e.ops) == 1 and isinstance(e.ops[0], (ast.In, ast.NotIn)) and isinstance(e.left, ast.Tuple) and len(e.left.elts) == 2):
+            continue
+        x, ln = e.left.elts
+        if norm(ln) != 'len(%s)' % var or not isinstance(x, ast.Name):
+            continue
+        cases = try_const(e.comparators[0])
+        if not (isinstance(cases, (tuple, list)) and cases and all(isinstance(c, (tuple, list)) and len(c) == 2 for c in cases)):
+            continue
+        label = 'true' if isinstance(e.ops[0], ast.In) else 'false'
+        # a `not (...)` wrapper is resolved by the CFG: the call must be unreachable without the passing edge
+        passing = [(tn, label)]
+        if target in cfg.reachable(cfg.entry, avoid_edges=passing):
+            passing = [(tn, 'false' if label == 'true' else 'true')]
+            if target in cfg.reachable(cfg.entry, avoid_edges=passing):
+                continue
+            # reached through the other edge only: `not (pair in cases)` evaluated as a whole -- the test node holds the inner
+            # comparison, so the edge labels are those of the inner expression; nothing admitted on this edge
+            continue
+        bad = []
+        for xv, lv in cases:
+            f = try_const(expr, {x.id: xv})
+            if not isinstance(f, str):
+                return False, 'format not evaluable for %s == %r' % (x.id, xv)
+            try:
+                if struct.calcsize(f) != lv:
+                    bad.append('%s == %r: format %r needs %d byte, guard admits %d' % (x.id, xv, f, struct.calcsize(f), lv))
+            except struct.error:
+                bad.append('bad format %r' % f)
+        return (not bad), ('; '.join(bad) if bad else 'cases %r' % (cases,))
+    return False, 'no guard relates len(%s) to the value that selects the format' % var
 
 
 def minlen_states(cfg, var, extra, sources=None, base=0):
@@ -505,14 +553,18 @@ def check(report, prog, func, var, rule, what_source, base=0, sources=None, coll
             report.ok(rule, k, func.loc(node), detail='inside a handler for struct.error')
             continue
         target = cfg_node_for(cfg, node)
-        lo = states.get(target) or 0
-        hi = ups.get(target, INF)
-        okk = lo >= size and hi <= size
-        msg = '`%s` needs len(%s) == %d but only %d <= len <= %s is established on every path: %s of another length raises struct.error' % (
-            what, var, size, lo, 'unbounded' if hi >= INF else hi, what_source)
+        if isinstance(size, tuple):
+            okk, why = _format_cases(func, cfg, node, size[1], var)
+            msg = '`%s`: the length of %s is not tied to the computed format on every path (%s): %s of another length raises struct.error' % (what, var, why, what_source)
+        else:
+            lo = states.get(target) or 0
+            hi = ups.get(target, INF)
+            okk = lo >= size and hi <= size
+            msg = '`%s` needs len(%s) == %d but only %d <= len <= %s is established on every path: %s of another length raises struct.error' % (
+                what, var, size, lo, 'unbounded' if hi >= INF else hi, what_source)
         if collect is not None:
             if okk:
-                report.ok(rule, k, func.loc(node), detail='len == %d' % size)
+                report.ok(rule, k, func.loc(node), detail='len == %s' % (size if not isinstance(size, tuple) else 'format size (case analysis)'))
             else:
                 collect.setdefault(func.qname, []).append((node, 'struct.error', '%s [%s]' % (what, msg)))
             continue
